@@ -1,3 +1,4 @@
+import numpy as np
 import torch
 
 from leaspy.exceptions import LeaspyModelInputError
@@ -80,4 +81,6 @@ class ConstantModel(StatelessModel):
         if self.features is None:
             raise LeaspyModelInputError("The model was not properly initialized.")
         values = [individual_parameters[f] for f in self.features]
-        return torch.tensor([[values] * len(timepoints)], dtype=torch.float32)
+        # a unique time-point may be given as a scalar
+        n_timepoints = len(np.atleast_1d(timepoints))
+        return torch.tensor([[values] * n_timepoints], dtype=torch.float32)
